@@ -206,7 +206,7 @@ theorem mem_candidatesOf (w : World) (sp : SpaceRow) (fuel : Nat) (pid : String)
 
 theorem walkChain_mem (w : World) (space : String) :
     ∀ (chain : List String) (prev last : Option DelegationRow), walkChain w space prev chain = .ok last →
-      ∀ l, last = some l → l ∈ w.delegations ∨ prev = some l
+      ∀ l, last = some l → (l ∈ w.delegations ∧ l.status = "active") ∨ prev = some l
   | [], prev, last, h, l, hl => by
     simp [walkChain] at h; subst h; exact Or.inr hl
   | id :: rest, prev, last, h, l, hl => by
@@ -219,28 +219,31 @@ theorem walkChain_mem (w : World) (space : String) :
         have hmem : row ∈ w.delegations := List.mem_of_find?_eq_some hrow
         split at h
         · simp at h
-        · split at h
+        · rename_i hst
+          have hact : row.status = "active" := by
+            simp only [not_or, Decidable.not_not] at hst; exact hst.1
+          split at h
           · split at h
             · simp at h
             · split at h
               · simp at h
               · rcases walkChain_mem w space rest (some row) last h l hl with hm | hm
                 · exact Or.inl hm
-                · cases hm; exact Or.inl hmem
+                · cases hm; exact Or.inl ⟨hmem, hact⟩
           · rcases walkChain_mem w space rest (some row) last h l hl with hm | hm
             · exact Or.inl hm
-            · cases hm; exact Or.inl hmem
+            · cases hm; exact Or.inl ⟨hmem, hact⟩
 
 /-- A named chain contributes Delegation candidates only, each resolved from a row of the collection. -/
 theorem mem_resolveNamedChain (w : World) (sp : SpaceRow) (pid : String) (chain : List String) (fuel : Nat)
     (cs : List Candidate) (h : resolveNamedChain w sp pid chain fuel = .ok cs) (c : Candidate) (hc : c ∈ cs) :
-    ∃ d ∈ w.delegations, resolveDelegation w sp fuel d = .ok (some c) := by
+    ∃ d ∈ w.delegations, d.status = "active" ∧ resolveDelegation w sp fuel d = .ok (some c) := by
   unfold resolveNamedChain at h
   split at h
   · simp at h
   · simp at h; subst h; simp at hc
   · rename_i last hwalk
-    have hmem : last ∈ w.delegations := by
+    have hmem : last ∈ w.delegations ∧ last.status = "active" := by
       rcases walkChain_mem w sp.id chain none (some last) hwalk last rfl with hm | hm
       · exact hm
       · cases hm
@@ -252,7 +255,7 @@ theorem mem_resolveNamedChain (w : World) (sp : SpaceRow) (pid : String) (chain 
       · rename_i c0 hr
         simp at h; subst h
         simp at hc; subst hc
-        exact ⟨last, hmem, hr⟩
+        exact ⟨last, hmem.1, hmem.2, hr⟩
 
 /-- Whoever made a Delegation that resolves to a candidate is a registered, active Principal: for a direct
 Delegation because a Principal that is not live holds no candidate and owns nothing, for a re-delegation
@@ -347,5 +350,71 @@ theorem find?_map_status (ps : List PrincipalRow) (id st : String) (p : Principa
   by_cases hp : p0.id = id
   · simp [hp] at hp0; subst hp0; rfl
   · simp [hp] at hp0; subst hp0; exact absurd hid hp
+
+/-! ## the policy in force -/
+
+def pickLatest (best : Option PolicyRow) (p : PolicyRow) : Option PolicyRow :=
+  match best with
+  | none => some p
+  | some b => if b.version ≤ p.version then some p else some b
+
+theorem activePolicy_eq (w : World) (pid : String) :
+    w.activePolicy pid = (w.policies.filter (fun p => p.policyId = pid)).foldl pickLatest none := rfl
+
+theorem foldl_pickLatest_ge (l : List PolicyRow) :
+    ∀ (init : Option PolicyRow) (b : PolicyRow), l.foldl pickLatest init = some b →
+      (∀ i, init = some i → i.version ≤ b.version) ∧ ∀ p ∈ l, p.version ≤ b.version := by
+  induction l with
+  | nil => intro init b h; simp at h; subst h; exact ⟨fun i hi => by cases hi; exact Nat.le_refl _, by simp⟩
+  | cons x xs ih =>
+    intro init b h
+    simp only [List.foldl_cons] at h
+    obtain ⟨h1, h2⟩ := ih _ b h
+    refine ⟨?_, ?_⟩
+    · intro i hi
+      subst hi
+      simp only [pickLatest] at h1
+      by_cases hv : i.version ≤ x.version
+      · simp [hv] at h1; omega
+      · simp [hv] at h1; exact h1
+    · intro p hp
+      rcases List.mem_cons.mp hp with rfl | hp'
+      · cases init with
+        | none => simp [pickLatest] at h1; exact h1
+        | some i =>
+          simp only [pickLatest] at h1
+          by_cases hv : i.version ≤ p.version
+          · simp [hv] at h1; exact h1
+          · simp [hv] at h1; omega
+      · exact h2 p hp'
+
+/-- Publishing appends the next version, and the version in force is the one just published. -/
+theorem activePolicy_publish (w : World) (pid : String) (sts : List Statement) :
+    ∃ v, (w.publishPolicy pid sts).activePolicy pid = some { policyId := pid, version := v, statements := sts } := by
+  unfold World.publishPolicy
+  simp only [activePolicy_eq, List.filter_append, List.foldl_append]
+  cases hb : w.activePolicy pid with
+  | none =>
+    rw [activePolicy_eq] at hb
+    simp [hb, pickLatest]
+  | some b =>
+    rw [activePolicy_eq] at hb
+    simp [hb, pickLatest]
+
+theorem resolve_statements (w : World) (space : String) (a : Auth) (ea : EA) (h : resolve w space a = .ok ea) :
+    ∃ sp, w.findSpace space = some sp ∧
+      ea.statements = (((if sp.defaultPolicyId = "" then none else w.activePolicy sp.defaultPolicyId)).map (·.statements)).getD [] := by
+  unfold resolve at h
+  split at h
+  · simp at h
+  · rename_i sp hsp
+    split at h
+    · simp at h
+    · try dsimp only at h
+      split at h
+      · simp at h
+      · simp at h
+        subst h
+        exact ⟨sp, hsp, rfl⟩
 
 end AndaVerif.Authz
